@@ -10,16 +10,23 @@ import StorageModel.C03.Spec
       store (`BaseStore.DeleteById` runs the parent's `ProcessBeforeDelete` TWICE for an entity
       with child data: once through the child store's indexing context, once on its own);
 
-    * a SCHEMA: for every field the name of its symbol (= name of the index bucket,
-      `Indexer.getIndexPath`), the key the entity strategy stores it under
-      (`AddSymbolWithKey`) and the name the caller's `FieldChecker` knows it by
-      (`PersistContext.WithFieldOverrides`).  A patch names fields by the caller-side name.
+    * a SCHEMA:
+        - the store's base path (`StoreDefinition.BasePath`, any number of elements): entities live
+          under `<basePath>/things/<id>`, index buckets under `<basePath>/indexes/things/<symbol>`
+          (`NewBaseStore`, `Indexer.getIndexPath`);
+        - for every field the name of its symbol (= last element of the index path), the key the
+          entity strategy stores it under (`AddSymbolWithKey`) and the name the caller's
+          `FieldChecker` knows it by (`PersistContext.WithFieldOverrides`); a patch names fields by
+          the caller-side name;
+        - WHICH of the three indexes (unique `name`, nullable unique `alias`, set `roles`) are
+          registered on the store and IN WHICH ORDER (`Indexer.constraints`).
 
   Follows boltz/store_crud.go (Create / Update / DeleteById / processDeleteConstraints /
-  ChildStoreUpdateHandler.HandleUpdate), boltz/store.go (GetEntityBucket / getOrCreateEntityBucket
-  of a child store), boltz/base.go (PersistContext.GetParentContext / WithFieldOverrides),
-  boltz/typed_bucket.go (MapFieldChecker, MappedFieldChecker, ProceedWithSet) and the index
-  protocol of boltz/indexes.go (the constraint steps are those of Model.lean).
+  ChildStoreUpdateHandler.HandleUpdate), boltz/store.go (NewBaseStore, GetEntityBucket /
+  getOrCreateEntityBucket of a child store), boltz/base.go (PersistContext.GetParentContext /
+  WithFieldOverrides), boltz/typed_bucket.go (MapFieldChecker, MappedFieldChecker, ProceedWithSet)
+  and the index protocol of boltz/indexes.go; the steps of one constraint (`uniqueAfter`,
+  `setAfter`, `uniqueBeforeDelete`, `setBeforeDelete`) are those of Model.lean.
 -/
 namespace StorageModel.C03.Layered
 open StorageModel StorageModel.C03
@@ -40,13 +47,27 @@ structure FieldNames where
   chk : Bytes
   deriving Repr
 
+/-- the order in which the index slots name / alias / roles are registered (`n a r` = name first) -/
+inductive Perm
+  | nar | nra | anr | arn | rna | ran
+  deriving DecidableEq, Repr
+
 structure Schema where
+  /-- `StoreDefinition.BasePath` -/
+  basePath : List Bytes
   name : FieldNames
   alias : FieldNames
   roles : FieldNames
   /-- the child store's own field: stored key and caller-side name -/
   tagKey : Bytes
   tagChk : Bytes
+  /-- is the unique index on `name` / the nullable unique index on `alias` / the set index on
+      `roles` registered (`AddUniqueIndex`, `AddNullableUniqueIndex`, `AddSetIndex`) -/
+  regName : Bool
+  regAlias : Bool
+  regRoles : Bool
+  /-- registration order of the registered ones -/
+  perm : Perm
   deriving Repr
 
 /-- `MappedFieldChecker.IsUpdated` over a `MapFieldChecker` holding `names`, asked by
@@ -62,7 +83,7 @@ def tagSelected (sch : Schema) : Option (List Bytes) → Bool
   | none => true
   | some names => names.contains sch.tagChk
 
-/-- the parent store's buckets (`base`) and the child data `u/things/<id>/ext/{tag}` -/
+/-- the parent store's buckets (`base`) and the child data `<basePath>/things/<id>/ext/{tag}` -/
 structure State where
   base : C03.State
   ext : Map Id Bytes
@@ -82,31 +103,90 @@ inductive Op
   | delete (via : Sel) (id : Id)
   deriving Repr
 
+/-! ### IndexingContext.ProcessAfterUpdate over the registered constraints, in registration order -/
+
+/-- the constraint on `name`, if registered -/
+def nameStep (sch : Schema) (isCreate : Bool) (old new : Bytes) (id : Id) (idx : Map Bytes Id) :
+    Except Err (Map Bytes Id) :=
+  if sch.regName then uniqueAfter isCreate false old new id idx else .ok idx
+
+def aliasStep (sch : Schema) (isCreate : Bool) (old new : Bytes) (id : Id) (idx : Map Bytes Id) :
+    Except Err (Map Bytes Id) :=
+  if sch.regAlias then uniqueAfter isCreate true old new id idx else .ok idx
+
+def rolesStep (sch : Schema) (old new : List Bytes) (id : Id) (idx : Map Bytes (List Id)) :
+    Except Err (Map Bytes (List Id)) :=
+  if sch.regRoles then setAfter old new id idx else .ok idx
+
+/-- the loop over `Indexer.constraints`: every constraint is skipped once the error holder carries
+    an error, so the first error in registration order is the one reported.  (Each constraint reads
+    the entity and writes only its own bucket, so its outcome does not depend on the others'.) -/
+def seq3 {A B C : Type} (p : Perm) (rn : Except Err A) (ra : Except Err B) (rr : Except Err C) : Except Err (A × B × C) :=
+  match p with
+  | .nar => do let a ← rn; let b ← ra; let c ← rr; pure (a, b, c)
+  | .nra => do let a ← rn; let c ← rr; let b ← ra; pure (a, b, c)
+  | .anr => do let b ← ra; let a ← rn; let c ← rr; pure (a, b, c)
+  | .arn => do let b ← ra; let c ← rr; let a ← rn; pure (a, b, c)
+  | .rna => do let c ← rr; let a ← rn; let b ← ra; pure (a, b, c)
+  | .ran => do let c ← rr; let b ← ra; let a ← rn; pure (a, b, c)
+
+def afterUpdate (sch : Schema) (isCreate : Bool) (cap : Captured) (s : C03.State) (id : Id) : Except Err C03.State :=
+  let e := s.ents.lookup id
+  match seq3 sch.perm (nameStep sch isCreate cap.name (evalName e) id s.uName)
+      (aliasStep sch isCreate cap.alias (evalAlias e) id s.uAlias)
+      (rolesStep sch cap.roles (evalRoles e) id s.sRoles) with
+  | .ok (un, ua, sr) => .ok { s with uName := un, uAlias := ua, sRoles := sr }
+  | .error x => .error x
+
 /-! ### Create -/
+
+/-- `parentStore.Create` -/
+def createParent (sch : Schema) (s : State) (id : Id) (v : Vals) : Except Err State :=
+  if id = [] then .error .other                               -- "cannot create with blank id"
+  else if (s.base.ents.lookup id).isSome then .error .exists   -- IsEntityPresent
+  else
+    let b1 := { s.base with hasEnts := true, ents := s.base.ents.insert id (persistCreate v) }
+    match afterUpdate sch true Captured.none b1 id with
+    | .ok b => .ok { s with base := b }
+    | .error e => .error e
 
 /-- `childStore.Create`: only the CHILD's data is checked for existence; when the parent entity is
     already there its indexed values are captured first (`indexingContext.Parent.ProcessBeforeUpdate`);
     the child strategy persists the parent's fields through `GetParentContext` (nil checker), then
     its own; `ProcessAfterUpdate` runs the parent's constraints with `IsCreate = true` -/
-def createChild (s : State) (id : Id) (v : Vals) (tag : Bytes) : Except Err State :=
+def createChild (sch : Schema) (s : State) (id : Id) (v : Vals) (tag : Bytes) : Except Err State :=
   if id = [] then .error .other
   else if hasExt s id then .error .exists
   else
     let cap := if (s.base.ents.lookup id).isSome then capture s.base id else Captured.none
     let b1 := { s.base with hasEnts := true, ents := s.base.ents.insert id (persistCreate v) }
-    match afterUpdate true cap b1 id with
+    match afterUpdate sch true cap b1 id with
     | .ok b => .ok ⟨b, s.ext.insert id tag⟩
     | .error e => .error e
 
-def create (s : State) (via : Sel) (id : Id) (v : Vals) (tag : Bytes) : Except Err State :=
+def create (sch : Schema) (s : State) (via : Sel) (id : Id) (v : Vals) (tag : Bytes) : Except Err State :=
   match via with
-  | .parent =>
-    match C03.create s.base id v with
-    | .ok b => .ok { s with base := b }
-    | .error e => .error e
-  | .child => createChild s id v tag
+  | .parent => createParent sch s id v
+  | .child => createChild sch s id v tag
 
 /-! ### Update -/
+
+/-- the part `Update` shares between the two stores: `FindById` found `old`; `ProcessBeforeUpdate`
+    captures; the parent strategy persists under the (resolved) checker; `ProcessAfterUpdate` -/
+def updateBase (sch : Schema) (b : C03.State) (id : Id) (old : Ent) (v : Vals) (chk : Option (List Bytes)) :
+    Except Err C03.State :=
+  afterUpdate sch false (capture b id) { b with ents := b.ents.insert id (persist old v (resolveOpt sch chk)) } id
+
+/-- `parentStore.Update` of an entity without child data -/
+def updateParent (sch : Schema) (s : State) (id : Id) (v : Vals) (chk : Option (List Bytes)) : Except Err State :=
+  if id = [] then .error .other                               -- "cannot update with blank id"
+  else
+    match s.base.ents.lookup id with
+    | none => .error .notFound                                 -- FindById
+    | some old =>
+      match updateBase sch s.base id old v chk with
+      | .ok b => .ok { s with base := b }
+      | .error e => .error e
 
 /-- `childStore.Update`: `FindById` through the (plain) child store needs the child data;
     `ProcessBeforeUpdate` / `ProcessAfterUpdate` walk the parent's constraints; the parent's fields
@@ -116,9 +196,12 @@ def updateChild (sch : Schema) (s : State) (id : Id) (v : Vals) (tag : Bytes) (c
   if id = [] then .error .other
   else if !hasExt s id then .error .notFound
   else
-    match C03.update s.base id v (resolveOpt sch chk) with
-    | .ok b => .ok ⟨b, s.ext.insert id (if tagSelected sch chk then tag else (s.ext.lookup id).getD [])⟩
-    | .error e => .error e
+    match s.base.ents.lookup id with
+    | none => .error .notFound
+    | some old =>
+      match updateBase sch s.base id old v chk with
+      | .ok b => .ok ⟨b, s.ext.insert id (if tagSelected sch chk then tag else (s.ext.lookup id).getD [])⟩
+      | .error e => .error e
 
 def update (sch : Schema) (s : State) (via : Sel) (id : Id) (v : Vals) (tag : Bytes) (chk : Option (List Bytes)) :
     Except Err State :=
@@ -128,18 +211,17 @@ def update (sch : Schema) (s : State) (via : Sel) (id : Id) (v : Vals) (tag : By
     -- `childStoreStrategies`: the mapper finds child data and hands the stored child entity, with
     -- the shared fields replaced by the caller's, to the child store
     if hasExt s id then updateChild sch s id v ((s.ext.lookup id).getD []) chk
-    else
-      match C03.update s.base id v (resolveOpt sch chk) with
-      | .ok b => .ok { s with base := b }
-      | .error e => .error e
+    else updateParent sch s id v chk
 
 /-! ### DeleteById -/
 
-/-- `IndexingContext.ProcessBeforeDelete` over the parent's constraints, in registration order -/
-def passBeforeDelete (s : C03.State) (e : Ent) (id : Id) : Except Err C03.State :=
-  match setBeforeDelete (evalRoles (some e)) id s.sRoles with
-  | .ok sr => .ok { s with uName := uniqueBeforeDelete (evalName (some e)) s.uName,
-                           uAlias := uniqueBeforeDelete (evalAlias (some e)) s.uAlias, sRoles := sr }
+/-- `IndexingContext.ProcessBeforeDelete` over the parent's registered constraints (only the set
+    index can fail, so the registration order does not show) -/
+def passBeforeDelete (sch : Schema) (s : C03.State) (e : Ent) (id : Id) : Except Err C03.State :=
+  match (if sch.regRoles then setBeforeDelete (evalRoles (some e)) id s.sRoles else .ok s.sRoles) with
+  | .ok sr => .ok { s with uName := if sch.regName then uniqueBeforeDelete (evalName (some e)) s.uName else s.uName,
+                           uAlias := if sch.regAlias then uniqueBeforeDelete (evalAlias (some e)) s.uAlias else s.uAlias,
+                           sRoles := sr }
   | .error x => .error x
 
 /-- `DeleteById` through either store (the child store delegates to its parent).  For every child
@@ -147,23 +229,23 @@ def passBeforeDelete (s : C03.State) (e : Ent) (id : Id) : Except Err C03.State 
     first — its indexing context walks the PARENT's constraints — then the parent's own
     `processDeleteConstraints` walks them again; then `DeleteEntity` removes the entity bucket with
     the child data in it -/
-def delete (s : State) (_via : Sel) (id : Id) : Except Err State :=
+def delete (sch : Schema) (s : State) (_via : Sel) (id : Id) : Except Err State :=
   if id = [] then .error .notFound
   else
     match s.base.ents.lookup id with
     | none => .error .notFound
     | some e =>
-      match (if (s.ext.lookup id).isSome then passBeforeDelete s.base e id else .ok s.base) with
+      match (if (s.ext.lookup id).isSome then passBeforeDelete sch s.base e id else .ok s.base) with
       | .error x => .error x
       | .ok b1 =>
-        match passBeforeDelete b1 e id with
+        match passBeforeDelete sch b1 e id with
         | .error x => .error x
         | .ok b2 => .ok ⟨{ b2 with ents := b2.ents.erase id }, s.ext.erase id⟩
 
 def stepRaw (sch : Schema) (s : State) : Op → Except Err State
-  | .create via id v tag => create s via id v tag
+  | .create via id v tag => create sch s via id v tag
   | .update via id v tag chk => update sch s via id v tag chk
-  | .delete via id => delete s via id
+  | .delete via id => delete sch s via id
 
 /-- the operations of one transaction body, in order; the first error aborts -/
 def applyOps (sch : Schema) : State → List Op → Nat → Except (Nat × Err) State
@@ -188,22 +270,40 @@ def run (sch : Schema) (txs : List (List Op)) : State :=
 
 /-! ### the SetChangeListener calls of one operation -/
 
+def isOk {A : Type} : Except Err A → Bool
+  | .ok _ => true
+  | .error _ => false
+
+/-- do the constraints registered before the set index leave the error holder clean -/
+def reachesRoles (p : Perm) (nameOk aliasOk : Bool) : Bool :=
+  match p with
+  | .nar => nameOk && aliasOk
+  | .nra => nameOk
+  | .anr => aliasOk && nameOk
+  | .arn => aliasOk
+  | .rna => true
+  | .ran => true
+
+/-- the listeners of the set index run at the end of its `ProcessAfterUpdate` (also when that step
+    itself set an error), provided the step was entered and the values changed -/
+def rolesListener (sch : Schema) (isCreate : Bool) (b : C03.State) (id : Id) (old : Option Ent) (e : Ent) :
+    List (Id × List Bytes × List Bytes) :=
+  if !sch.regRoles then []
+  else if !reachesRoles sch.perm (isOk (nameStep sch isCreate (evalName old) e.name id b.uName))
+      (isOk (aliasStep sch isCreate (evalAlias old) (e.alias.getD []) id b.uAlias)) then []
+  else if setChanged (evalRoles old) e.roles && !(evalRoles old).any (· == []) then [(id, evalRoles old, e.roles)]
+  else []
+
 def listenerCalls (sch : Schema) (s : State) : Op → List (Id × List Bytes × List Bytes)
-  | .create .parent id v _ => C03.listenerCalls s.base (.create id v)
+  | .create .parent id v _ =>
+    if id = [] ∨ (s.base.ents.lookup id).isSome then [] else rolesListener sch true s.base id none (persistCreate v)
   | .create .child id v _ =>
-    if id = [] ∨ hasExt s id then []
-    else
-      let e := persistCreate v
-      let old := s.base.ents.lookup id
-      match (do
-        let _ ← uniqueAfter true false (evalName old) e.name id s.base.uName
-        uniqueAfter true true (evalAlias old) (e.alias.getD []) id s.base.uAlias) with
-      | .error _ => []
-      | .ok _ =>
-        if setChanged (evalRoles old) e.roles && !(evalRoles old).any (· == []) then [(id, evalRoles old, e.roles)] else []
-  | .update .child id v _ chk =>
-    if id = [] ∨ !hasExt s id then [] else C03.listenerCalls s.base (.update id v (resolveOpt sch chk))
-  | .update .parent id v _ chk => C03.listenerCalls s.base (.update id v (resolveOpt sch chk))
+    if id = [] ∨ hasExt s id then [] else rolesListener sch true s.base id (s.base.ents.lookup id) (persistCreate v)
+  | .update via id v _ chk =>
+    if id = [] ∨ (via = .child ∧ !hasExt s id) then []
+    else match s.base.ents.lookup id with
+      | none => []
+      | some old => rolesListener sch false s.base id (some old) (persist old v (resolveOpt sch chk))
   | .delete _ _ => []
 
 /-! ### Render: the canonical bucket dump under a schema -/
@@ -211,32 +311,57 @@ def listenerCalls (sch : Schema) (s : State) : Op → List (Id × List Bytes × 
 def bExt : Bytes := [101, 120, 116]
 def bTag : Bytes := [116, 97, 103]
 
+/-- `Indexer.getIndexPath`: `<basePath>/indexes/<entityType>/<symbol name>` -/
+def idxPath (sch : Schema) (sym : Bytes) : List Bytes := sch.basePath ++ [bIndexes, bThings, sym]
+
+/-- the entity bucket `<basePath>/<entityType>/<id>` -/
+def entPath (sch : Schema) (id : Id) : List Bytes := sch.basePath ++ [bThings, id]
+
+/-- the non-empty prefixes of a path: the buckets `GetOrCreatePath` creates on the way -/
+def prefixes : List Bytes → List (List Bytes)
+  | [] => []
+  | a :: t => [a] :: (prefixes t).map (a :: ·)
+
 def renderEnt (sch : Schema) (p : Id × Ent) : List Line :=
-  [ .bucket (entPath p.1),
-    .kv (entPath p.1) sch.name.key (typed p.2.name),
-    .kv (entPath p.1) sch.alias.key (match p.2.alias with | none => nilField | some a => typed a),
-    .bucket (entPath p.1 ++ [sch.roles.key]) ] ++
-  p.2.roles.map (fun r => .kv (entPath p.1 ++ [sch.roles.key]) (typed r) [])
+  [ .bucket (entPath sch p.1),
+    .kv (entPath sch p.1) sch.name.key (typed p.2.name),
+    .kv (entPath sch p.1) sch.alias.key (match p.2.alias with | none => nilField | some a => typed a),
+    .bucket (entPath sch p.1 ++ [sch.roles.key]) ] ++
+  p.2.roles.map (fun r => .kv (entPath sch p.1 ++ [sch.roles.key]) (typed r) [])
 
 def renderExt (sch : Schema) (p : Id × Bytes) : List Line :=
-  [ .bucket (entPath p.1 ++ [bExt]), .kv (entPath p.1 ++ [bExt]) sch.tagKey (typed p.2) ]
+  [ .bucket (entPath sch p.1 ++ [bExt]), .kv (entPath sch p.1 ++ [bExt]) sch.tagKey (typed p.2) ]
 
-def fixedLines (sch : Schema) : List Line :=
-  [ .bucket [bU], .bucket [bU, bIndexes], .bucket [bU, bIndexes, bThings],
-    .bucket (idxPath sch.name.sym), .bucket (idxPath sch.alias.sym), .bucket (idxPath sch.roles.sym) ]
+def renderUnique (path : List Bytes) (p : Bytes × Id) : List Line := [ .kv path p.1 p.2 ]
+
+def renderSetKey (path : List Bytes) (p : Bytes × List Id) : List Line :=
+  .bucket (path ++ [p.1]) :: p.2.map (fun i => .kv (path ++ [p.1]) (typed i) [])
+
+def anyReg (sch : Schema) : Bool := sch.regName || sch.regAlias || sch.regRoles
+
+/-- the buckets `InitializeIndexes` creates (one per registered index, with the path down to it)
+    and `getOrCreateEntitiesBucket` adds -/
+def fixedLines (sch : Schema) (hasEnts : Bool) : List Line :=
+  (if anyReg sch || hasEnts then (prefixes sch.basePath).map Line.bucket else []) ++
+  (if anyReg sch then [Line.bucket (sch.basePath ++ [bIndexes]), Line.bucket (sch.basePath ++ [bIndexes, bThings])] else []) ++
+  (if sch.regName then [Line.bucket (idxPath sch sch.name.sym)] else []) ++
+  (if sch.regAlias then [Line.bucket (idxPath sch sch.alias.sym)] else []) ++
+  (if sch.regRoles then [Line.bucket (idxPath sch sch.roles.sym)] else []) ++
+  (if hasEnts then [Line.bucket (sch.basePath ++ [bThings])] else [])
 
 /-- the part of the dump that is the entity table itself -/
 def renderTable (sch : Schema) (hasEnts : Bool) (ents : Map Id Ent) (ext : Map Id Bytes) : List Line :=
-  fixedLines sch ++ (if hasEnts then [Line.bucket [bU, bThings]] else []) ++
-  ents.entries.flatMap (renderEnt sch) ++ ext.entries.flatMap (renderExt sch)
+  fixedLines sch hasEnts ++ ents.entries.flatMap (renderEnt sch) ++ ext.entries.flatMap (renderExt sch)
 
 def Render (sch : Schema) (s : State) : List Line :=
   renderTable sch s.base.hasEnts s.base.ents s.ext ++
-  s.base.uName.entries.flatMap (renderUnique sch.name.sym) ++
-  s.base.uAlias.entries.flatMap (renderUnique sch.alias.sym) ++
-  s.base.sRoles.entries.flatMap (renderSetKey sch.roles.sym)
+  s.base.uName.entries.flatMap (renderUnique (idxPath sch sch.name.sym)) ++
+  s.base.uAlias.entries.flatMap (renderUnique (idxPath sch sch.alias.sym)) ++
+  s.base.sRoles.entries.flatMap (renderSetKey (idxPath sch sch.roles.sym))
 
-/-- the schema of Model.lean: every field is known by one name -/
-def Schema.plain : Schema := ⟨⟨bName, bName, bName⟩, ⟨bAlias, bAlias, bAlias⟩, ⟨bRoles, bRoles, bRoles⟩, bTag, bTag⟩
+/-- the schema of Model.lean: base path ["u"], every field known by one name, all three indexes
+    registered in the order name, alias, roles -/
+def Schema.plain : Schema :=
+  ⟨[bU], ⟨bName, bName, bName⟩, ⟨bAlias, bAlias, bAlias⟩, ⟨bRoles, bRoles, bRoles⟩, bTag, bTag, true, true, true, .nar⟩
 
 end StorageModel.C03.Layered
